@@ -16,6 +16,7 @@ func Gen(run *vlib.Run, seed uint64, tier string) {
 	genClassdef(run, r.Fork("classdef"), tier)
 	genLookupLists(run, r.Fork("lookuplist"), tier)
 	genSubtables(run, r.Fork("subtables"), tier)
+	genInfos(run, r.Fork("info"), tier)
 }
 
 func pairsOf(x vlib.Sx) ([]pair, error) {
@@ -183,10 +184,22 @@ func RunCase(line string) (impl, fail, sig string, err error) {
 		}
 		d, err := stDescOf(items[1])
 		if err != nil {
-			return "", "", "", err
+			xd, err2 := xDescOf(items[1])
+			if err2 != nil {
+				return "", "", "", err
+			}
+			impl, fail = subEncX(xd)
+			return impl, fail, "c08-subtable-" + xd.kind, nil
 		}
 		impl, fail, _ = subEnc(d)
 		return impl, fail, "c08-subtable-" + d.kind, nil
+	case "info":
+		d, err := infoDescOf(items)
+		if err != nil {
+			return "", "", "", err
+		}
+		impl, fail = infoCase(d)
+		return impl, fail, "c08-info", nil
 	case "sub-read":
 		if len(items) != 5 {
 			return "", "", "", errors.New("sub-read: want 4 arguments")
